@@ -47,6 +47,12 @@ def check(ctx):
     r19_6(ctx, st)
     r19_7(ctx, st)
     ctx.not_decided.append("floating-point rounding of the two averages (summation order can change the last digits before round())")
+    # mechanisms this property rests on (see shared.py): a change there is reported here as well
+    from . import shared as _sh
+
+    _sh.gaf_reader(ctx)
+    _sh.tag_parser(ctx)
+    _sh.cli_layer(ctx, "gaftools.cli.stat")
 
 
 # ---------------------------------------------------------------------------------------------
